@@ -26,7 +26,10 @@ package main
 import (
 	"bytes"
 	"io"
+	"log"
 	"net"
+	"os"
+	"runtime"
 	"sort"
 	"strconv"
 	"sync"
@@ -70,7 +73,69 @@ func decodeScript(v hv.Val) []op {
 
 var initOnce sync.Once
 
+// yieldWriter is the log sink during a concurrent burst: with bfe_http2.VerboseLogs the server logs every header field
+// it encodes (encKV); yielding the processor there interleaves the frame-writing goroutines of different connections
+// inside their header encoding loops, so that state shared between connections (pools) is really shared.
+type yieldWriter struct{}
+
+func (yieldWriter) Write(p []byte) (int, error) { runtime.Gosched(); return len(p), nil }
+
+// noiseCase is the header-rich response the other connections of a burst produce.
+func noiseCase(j int) hv.Val {
+	var sc hv.L
+	for k := 0; k < 24; k++ {
+		sc = append(sc, hv.L{hv.I(1), hv.S("N" + strconv.Itoa(j) + "-" + strconv.Itoa(k)), hv.S("noise-value-" + strconv.Itoa(k))})
+	}
+	sc = append(sc, hv.L{hv.I(1), hv.S("Date"), hv.S(calibDate)}, hv.L{hv.I(4), hv.S("noise"), hv.I(1)})
+	return hv.L{hv.I(0), hv.I(bufsz), hv.L{}, sc}
+}
+
+// impl: one exchange; for method + 10 additionally a concurrent burst: 8 more copies of the same exchange and 8
+// connections with other header-rich responses run concurrently (3 rounds).  Every copy must produce the observation of
+// the sequential exchange and every noise connection its own sequential observation (deterministic on correct code);
+// the first deviating observation is returned instead.
 func impl(in hv.Val) hv.Val {
+	args := hv.AsList(in)
+	if hv.AsInt(args[0]) < 10 {
+		return exchange(in)
+	}
+	single := append(hv.L{hv.I(int(hv.AsInt(args[0])) - 10)}, args[1:]...)
+	want := hv.String(exchange(single))
+	noiseWant := make([]string, 8)
+	for j := range noiseWant {
+		noiseWant[j] = hv.String(exchange(noiseCase(j)))
+	}
+	bfe_http2.VerboseLogs = true
+	log.SetOutput(yieldWriter{})
+	defer func() { bfe_http2.VerboseLogs = false; log.SetOutput(os.Stderr) }()
+	bad := make(chan hv.Val, 64)
+	var wg sync.WaitGroup
+	for j := 0; j < 16; j++ {
+		wg.Add(1)
+		go func(j int) {
+			defer wg.Done()
+			for round := 0; round < 3; round++ {
+				if j < 8 {
+					if o := exchange(single); hv.String(o) != want {
+						bad <- o
+					}
+				} else if o := exchange(noiseCase(j - 8)); hv.String(o) != noiseWant[j-8] {
+					bad <- hv.L{hv.I(-4), o} // a noise connection deviated
+				}
+			}
+		}(j)
+	}
+	wg.Wait()
+	select {
+	case o := <-bad:
+		return o
+	default:
+	}
+	v, _ := hv.Parse(want)
+	return v
+}
+
+func exchange(in hv.Val) hv.Val {
 	initOnce.Do(func() {
 		var m metrics.Metrics
 		m.Init(bfe_http2.GetHttp2State(), "h2", 0)
@@ -543,6 +608,15 @@ func gen(r *hv.Rng, i int, tier string) (string, hv.Val) {
 			maybeFlush()
 		}
 		return class + "-flow", hv.L{hv.I(method), hv.I(bufsz), hop, script, hv.L{hv.I(w), hv.I(g)}}
+	case 7: // concurrent burst: a header-rich response repeated on 8 connections while 8 others send different headers
+		if !r.Chance(1, 16) {
+			return "triv-" + class, hv.L{hv.I(method), hv.I(bufsz), hop, hv.L{}}
+		}
+		for j := r.Range(10, 24); j > 0; j-- {
+			script = append(script, hv.L{hv.I(1 + r.Intn(2)), hv.S("X-B" + strconv.Itoa(r.Intn(40))), hv.S(genValue(r))})
+		}
+		script = append(script, hv.L{hv.I(1), hv.S("Date"), hv.S(calibDate)}, wr(r.Range(0, 20)))
+		return class + "-burst", hv.L{hv.I(method + 10), hv.I(bufsz), hop, script}
 	case 2: // trailers: duplicates, forbidden names, some set, some only promoted, late declarations
 		names := []string{"Foo", "bar", "Zz", "X-Md5", "Content-Length", "trailer", "Foo"}
 		decl := ""
